@@ -1008,3 +1008,345 @@ Proof.
     destruct (um_multiget NS_CAL "calendar-multiget" (r_url_ok r) 0 multiget_zero (drop_qualified root)) as [m|] eqn:E; [|reflexivity].
     apply cal_multiget_rejected. eapply cal_multiget_decoded_bad; eauto.
 Qed.
+
+(* ------------------------------------------------------------------ *)
+(** * CardDAV                                                          *)
+
+Definition apfD (v : apropFilterW) : Prop :=
+  (apf_ind v = true /\ nonempty (apf_tms v) || nonempty (apf_params v) = true) \/
+  (exists p, In p (apf_params v) /\ decode_param_filter p = false).
+
+Lemma apfD_false v : apfD v -> decode_aprop_filter v = false.
+Proof.
+  unfold decode_aprop_filter. intros [[A B]|(p & I & F)].
+  - rewrite A, B. reflexivity.
+  - destruct (apf_ind v && _); [reflexivity|]. eapply forallb_false_in; eauto.
+Qed.
+
+Lemma apf_rej t : rfc_apf_bad t = true -> rej um_aprop_filter (fun v => decode_aprop_filter v = false) t.
+Proof.
+  intros R d acc v H. apply apfD_false.
+  destruct (um_struct_nonelem_none _ _ _ _ _ _ _ _ H) as (n & l & a & ks & ->).
+  unfold rfc_apf_bad in R.
+  apply orb_true_iff in R. destruct R as [R|R4].
+  apply orb_true_iff in R. destruct R as [R|R3].
+  apply orb_true_iff in R. destruct R as [R0|R1].
+  - exfalso. apply attr_bad_in in R0. destruct R0 as (x & I & _ & B). simpl in I.
+    rewrite (proj2 (card_test_invalid d n l a ks x I B) acc) in H. discriminate.
+  - unfold um_aprop_filter in H.
+    apply um_struct_some in H. destruct H as (a1 & a2 & H1 & H2 & ->). unfold no_text.
+    left. apply andb_true_iff in R1. destruct R1 as [RI RO].
+    apply has_kid_in in RI. destruct RI as (k1 & I1 & K1). simpl in I1.
+    apply kid_is_elem in K1. destruct K1 as (a' & ks' & ->). split.
+    + revert H2. apply (fold_opt_estab (fun v => apf_ind v = true)) with (x0 := XElem NS_CARD "is-not-defined" a' ks'); auto.
+      * intros a0 x a0' _ H P. step_cases H; fin.
+      * intros a0 a0' H. simpl in H. step_cases H; fin.
+    + apply orb_true_iff in RO. destruct RO as [RO|RO];
+        apply has_kid_in in RO; destruct RO as (k2 & I2 & K2); simpl in I2;
+        apply kid_is_elem in K2; destruct K2 as (a'' & ks'' & ->).
+      * assert (X : nonempty (apf_tms a2) = true); [|rewrite X; reflexivity].
+        revert H2. apply (fold_opt_estab (fun v => nonempty (apf_tms v) = true)) with (x0 := XElem NS_CARD "text-match" a'' ks''); auto.
+        -- intros a0 x a0' _ H P. step_cases H; fin.
+        -- intros a0 a0' H. simpl in H. step_cases H; fin.
+      * assert (X : nonempty (apf_params a2) = true); [|rewrite X; rewrite ?orb_true_r; reflexivity].
+        revert H2. apply (fold_opt_estab (fun v => nonempty (apf_params v) = true)) with (x0 := XElem NS_CARD "param-filter" a'' ks''); auto.
+        -- intros a0 x a0' _ H P. step_cases H; fin.
+        -- intros a0 a0' H. simpl in H. step_cases H; fin.
+  - exfalso. unfold um_aprop_filter in H.
+    apply um_struct_some in H. destruct H as (a1 & a2 & H1 & H2 & ->).
+    apply some_kid_in in R3. destruct R3 as (k & I & K & B). simpl in I.
+    apply kid_is_elem in K. destruct K as (a' & ks' & ->).
+    rewrite (fold_opt_fails _ ks (XElem NS_CARD "text-match" a' ks') I) in H2; [discriminate|].
+    intros a0. simpl. unfold into_slice, chk. destruct (MAXD <=? d + 1); [reflexivity|]. rewrite tm_fails; auto.
+  - unfold um_aprop_filter in H.
+    apply um_struct_some in H. destruct H as (a1 & a2 & H1 & H2 & ->). unfold no_text.
+    right. apply some_kid_in in R4. destruct R4 as (k & I & K & B). simpl in I.
+    apply kid_is_elem in K. destruct K as (a' & ks' & ->).
+    revert H2. apply (fold_opt_estab (fun v => exists p, In p (apf_params v) /\ decode_param_filter p = false))
+                 with (x0 := XElem NS_CARD "param-filter" a' ks'); auto.
+    + intros a0 x a0' _ H (p & Ip & Fp). step_cases H; fin; try (exists p; split; auto; apply in_or_app; auto).
+    + intros a0 a0' H. simpl in H. step_cases H. fin.
+      exists x. split; [apply in_or_app; right; left; reflexivity|].
+      match goal with E : um_param_filter _ _ _ _ _ = Some x |- _ => exact (paf_rej _ _ _ B _ _ _ E) end.
+Qed.
+
+Definition afbad (v : cardFilterW) : Prop := forallb decode_aprop_filter (af_props v) = false.
+
+Lemma afbad_iff v : afbad v <-> exists p, In p (af_props v) /\ decode_aprop_filter p = false.
+Proof.
+  unfold afbad. split; [apply forallb_false_exists|]. intros (p & I & F). eapply forallb_false_in; eauto.
+Qed.
+
+Lemma card_filter_mono d acc f v : um_card_filter d acc f = Some v -> afbad acc -> afbad v.
+Proof.
+  unfold um_card_filter. intros H D. apply afbad_iff in D. apply afbad_iff.
+  destruct (um_struct_nonelem_none _ _ _ _ _ _ _ _ H) as (n & l & a & ks & ->).
+  apply um_struct_some in H. destruct H as (a1 & a2 & H1 & H2 & ->). unfold no_text.
+  eapply (fold_opt_pres (fun v => exists p, In p (af_props v) /\ decode_aprop_filter p = false)); [|exact H2|].
+  - intros a0 x a0' _ H (p & I & F). step_cases H; fin; exists p; split; auto. apply in_or_app; auto.
+  - eapply (fold_opt_pres (fun v => exists p, In p (af_props v) /\ decode_aprop_filter p = false)); [|exact H1|exact D].
+    intros a0 x a0' _ H P. step_cases H; fin.
+Qed.
+
+Lemma card_filter_rej f : rfc_card_filter_bad f = true -> rej um_card_filter afbad f.
+Proof.
+  intros R d acc v H. apply afbad_iff.
+  destruct (um_struct_nonelem_none _ _ _ _ _ _ _ _ H) as (n & l & a & ks & ->).
+  unfold rfc_card_filter_bad in R. apply orb_true_iff in R. destruct R as [R|R].
+  - exfalso. apply attr_bad_in in R. destruct R as (x & I & _ & B). simpl in I.
+    rewrite (proj1 (card_test_invalid d n l a ks x I B) acc) in H. discriminate.
+  - unfold um_card_filter in H.
+    apply um_struct_some in H. destruct H as (a1 & a2 & H1 & H2 & ->). unfold no_text.
+    apply some_kid_in in R. destruct R as (k & I & K & B). simpl in I.
+    apply kid_is_elem in K. destruct K as (a' & ks' & ->).
+    revert H2. apply (fold_opt_estab (fun v => exists p, In p (af_props v) /\ decode_aprop_filter p = false))
+                 with (x0 := XElem NS_CARD "prop-filter" a' ks'); auto.
+    + intros a0 x a0' _ H (p & Ip & Fp). step_cases H; fin; exists p; split; auto. apply in_or_app; auto.
+    + intros a0 a0' H. simpl in H. step_cases H. fin.
+      exists x. split; [apply in_or_app; right; left; reflexivity|].
+      match goal with E : um_aprop_filter _ _ _ = Some x |- _ => exact (apf_rej _ B _ _ _ E) end.
+Qed.
+
+Lemma limit_fails t : rfc_limit_bad t = true -> forall d acc, um_limit d acc t = None.
+Proof.
+  intros R d acc. unfold rfc_limit_bad in R. apply some_kid_in in R. destruct R as (k & I & K & B).
+  apply kid_is_elem in K. destruct K as (a' & ks' & ->). simpl in B. apply negb_true_iff in B.
+  destruct t as [ns l a ks| |]; simpl in I; try contradiction.
+  eapply limit_invalid; eauto. destruct (parse_uint (chardata ks')); [discriminate|reflexivity].
+Qed.
+
+Definition card_query_kstep (d : N) (acc : cardQueryW) (k : xtree) : option cardQueryW :=
+  match um_sel d (aq_sel acc) k with
+  | None => None
+  | Some (Some s) => Some {| aq_sel := s; aq_filter := aq_filter acc; aq_limit := aq_limit acc |}
+  | Some None =>
+    if kid_local k "filter" then
+      match um_card_filter (d + 1) (aq_filter acc) k with
+      | Some f => Some {| aq_sel := aq_sel acc; aq_filter := f; aq_limit := aq_limit acc |} | None => None end
+    else if kid_local k "limit" then
+      match into_ptr um_limit 0 d (aq_limit acc) k with
+      | Some l => Some {| aq_sel := aq_sel acc; aq_filter := aq_filter acc; aq_limit := l |} | None => None end
+    else Some acc
+  end.
+
+Lemma um_card_query_eq d acc t :
+  um_card_query d acc t = um_struct (Some (NS_CARD, "addressbook-query")) no_attr (card_query_kstep d) no_text d acc t.
+Proof. reflexivity. Qed.
+
+Lemma card_query_raws d ks : forall acc v,
+  fold_opt (card_query_kstep d) ks acc = Some v ->
+  rl (s_prop (aq_sel v)) = (rl (s_prop (aq_sel acc)) ++ map rawof (flat_map props_of_kid ks))%list.
+Proof.
+  induction ks as [|k ks IH]; simpl; intros acc v H.
+  - inversion H. rewrite app_nil_r. reflexivity.
+  - destruct (card_query_kstep d acc k) as [a1|] eqn:E; [|discriminate].
+    apply IH in H. rewrite H. rewrite map_app, app_assoc. f_equal.
+    unfold card_query_kstep in E. destruct (um_sel d (aq_sel acc) k) as [r|] eqn:S; [|discriminate].
+    pose proof (um_sel_raws _ _ _ _ S) as Q. destruct r as [s'|].
+    + inversion E; subst. exact Q.
+    + step_cases E; exact Q.
+Qed.
+
+Lemma card_query_filter_rej t :
+  some_kid t NS_CARD "filter" rfc_card_filter_bad = true ->
+  rej um_card_query (fun q => afbad (aq_filter q)) t.
+Proof.
+  intros R d acc v H. rewrite um_card_query_eq in H.
+  destruct (um_struct_nonelem_none _ _ _ _ _ _ _ _ H) as (n & l & a & ks & ->).
+  apply um_struct_some in H. destruct H as (a1 & a2 & H1 & H2 & ->). unfold no_text.
+  apply some_kid_in in R. destruct R as (k & I & K & B). simpl in I.
+  apply kid_is_elem in K. destruct K as (a' & ks' & ->).
+  revert H2. apply (fold_opt_estab (fun q => afbad (aq_filter q))) with (x0 := XElem NS_CARD "filter" a' ks'); auto.
+  - intros a0 x a0' _ H P. unfold card_query_kstep in H.
+    destruct (um_sel d (aq_sel a0) x) as [[s|]|]; [inversion H; subst; auto| |discriminate].
+    step_cases H; auto. simpl.
+    match goal with E : um_card_filter _ _ _ = Some _ |- _ => exact (card_filter_mono _ _ _ _ E P) end.
+  - intros a0 a0' H. unfold card_query_kstep in H.
+    rewrite (um_sel_foreign d (aq_sel a0) _ NS_CARD "filter" a' ks' eq_refl eq_refl) in H.
+    change (kid_local (XElem NS_CARD "filter" a' ks') "filter") with true in H.
+    step_cases H; try discriminate. simpl.
+    match goal with E : um_card_filter _ _ _ = Some _ |- _ => exact (card_filter_rej _ B _ _ _ E) end.
+Qed.
+
+Lemma card_query_limit_fails t :
+  some_kid t NS_CARD "limit" rfc_limit_bad = true -> forall d acc, um_card_query d acc t = None.
+Proof.
+  intros R d acc. destruct (um_card_query d acc t) as [v|] eqn:H; [exfalso|reflexivity].
+  rewrite um_card_query_eq in H.
+  destruct (um_struct_nonelem_none _ _ _ _ _ _ _ _ H) as (n & l & a & ks & ->).
+  apply um_struct_some in H. destruct H as (a1 & a2 & H1 & H2 & ->).
+  apply some_kid_in in R. destruct R as (k & I & K & B). simpl in I.
+  apply kid_is_elem in K. destruct K as (a' & ks' & ->).
+  rewrite (fold_opt_fails _ ks (XElem NS_CARD "limit" a' ks') I) in H2; [discriminate|].
+  intros a0. unfold card_query_kstep.
+  rewrite (um_sel_foreign d (aq_sel a0) _ NS_CARD "limit" a' ks' eq_refl eq_refl).
+  change (kid_local (XElem NS_CARD "limit" a' ks') "filter") with false.
+  change (kid_local (XElem NS_CARD "limit" a' ks') "limit") with true. cbv iota.
+  unfold into_ptr. rewrite limit_fails; auto.
+Qed.
+
+(** ** address-data *)
+
+Definition rfc_ad_bad (ad : xtree) : bool := has_kid ad NS_CARD "allprop" && has_kid ad NS_CARD "prop".
+
+Lemma addr_data_rej ad : rfc_ad_bad ad = true -> rej um_addr_data (fun v => decode_addr_data_req v = false) ad.
+Proof.
+  intros R d acc v H. unfold um_addr_data in H.
+  destruct (um_struct_nonelem_none _ _ _ _ _ _ _ _ H) as (n & l & a & ks & ->).
+  apply um_struct_some in H. destruct H as (a1 & a2 & H1 & H2 & ->). unfold no_text.
+  unfold rfc_ad_bad in R. apply andb_true_iff in R. destruct R as [RA RB].
+  apply has_kid_in in RA. destruct RA as (k1 & I1 & K1). simpl in I1.
+  apply kid_is_elem in K1. destruct K1 as (a' & ks' & ->).
+  apply has_kid_in in RB. destruct RB as (k2 & I2 & K2). simpl in I2.
+  apply kid_is_elem in K2. destruct K2 as (a'' & ks'' & ->).
+  assert (X1 : ad_allprop a2 = true).
+  { revert H2. apply (fold_opt_estab (fun v => ad_allprop v = true)) with (x0 := XElem NS_CARD "allprop" a' ks'); auto.
+    - intros a0 x a0' _ H P. step_cases H; fin.
+    - intros a0 a0' H. simpl in H. step_cases H; fin. }
+  assert (X2 : nonempty (ad_props a2) = true).
+  { revert H2. apply (fold_opt_estab (fun v => nonempty (ad_props v) = true)) with (x0 := XElem NS_CARD "prop" a'' ks''); auto.
+    - intros a0 x a0' _ H P. step_cases H; fin.
+    - intros a0 a0' H. simpl in H. step_cases H; fin. }
+  unfold decode_addr_data_req. rewrite X1, X2. reflexivity.
+Qed.
+
+Lemma af_ad p ad : rfc_ad_bad ad = true -> rfc_ad_bad (afilter p ad) = true.
+Proof.
+  unfold rfc_ad_bad. intros H. apply andb_true_iff in H. destruct H as [A B].
+  rewrite (af_has_kid p _ _ _ A), (af_has_kid p _ _ _ B). reflexivity.
+Qed.
+
+Lemma addr_data_of_prop_bad s root ad :
+  rl (s_prop s) = map rawof (report_props root) ->
+  report_data root NS_CARD "address-data" = Some ad -> rfc_ad_bad ad = true ->
+  addr_data_of_prop s = SBad.
+Proof.
+  intros RL RD B. unfold report_data in RD.
+  assert (PG : prop_get (rl (s_prop s)) NS_CARD "address-data" = Some (rawof ad)).
+  { rewrite RL, prop_get_map, RD. reflexivity. }
+  unfold addr_data_of_prop. destruct (s_prop s) as [raws|]; simpl in PG; [|discriminate].
+  rewrite PG. unfold rawof. simpl.
+  assert (B' : rfc_ad_bad (strip_decls ad) = true) by (rewrite strip_decls_afilter; apply af_ad; auto).
+  destruct (um_addr_data 0 addr_data_zero (strip_decls ad)) as [v|] eqn:E; [|reflexivity].
+  rewrite (addr_data_rej _ B' _ _ _ E). reflexivity.
+Qed.
+
+Lemma rfc_addr_data_bad_inv root : rfc_addr_data_bad root = true ->
+  exists ad, report_data root NS_CARD "address-data" = Some ad /\ rfc_ad_bad ad = true.
+Proof.
+  unfold rfc_addr_data_bad. destruct (report_data root NS_CARD "address-data") as [ad|]; [|discriminate].
+  intros H. exists ad. split; auto.
+Qed.
+
+Lemma af_apf p (K : keeps p) t : rfc_apf_bad t = true -> rfc_apf_bad (afilter p t) = true.
+Proof.
+  unfold rfc_apf_bad. intros H.
+  apply orb_true_iff in H. destruct H as [H|H4].
+  apply orb_true_iff in H. destruct H as [H|H3].
+  apply orb_true_iff in H. destruct H as [H0|H1].
+  - assert (N : "test" <> "xmlns") by discriminate. rewrite (af_attr_bad p K _ "test" _ N H0). reflexivity.
+  - apply andb_true_iff in H1. destruct H1 as [A B]. rewrite (af_has_kid p _ _ _ A). simpl.
+    apply orb_true_iff in B. destruct B as [B|B]; rewrite (af_has_kid p _ _ _ B); rewrite ?orb_true_r; reflexivity.
+  - rewrite (af_some_kid p _ _ _ _ (rfc_tm_bad true) (fun k _ => af_tm p K true k) H3). rewrite ?orb_true_r. reflexivity.
+  - rewrite (af_some_kid p _ _ _ _ (rfc_paf_bad true NS_CARD) (fun k _ => af_paf p K true NS_CARD k) H4). rewrite ?orb_true_r. reflexivity.
+Qed.
+
+Lemma af_card_filter p (K : keeps p) t : rfc_card_filter_bad t = true -> rfc_card_filter_bad (afilter p t) = true.
+Proof.
+  unfold rfc_card_filter_bad. intros H. apply orb_true_iff in H. destruct H as [H|H].
+  - assert (N : "test" <> "xmlns") by discriminate. rewrite (af_attr_bad p K _ "test" _ N H). reflexivity.
+  - rewrite (af_some_kid p _ _ _ _ rfc_apf_bad (fun k _ => af_apf p K k) H). rewrite ?orb_true_r. reflexivity.
+Qed.
+
+Lemma af_limit p t : rfc_limit_bad t = true -> rfc_limit_bad (afilter p t) = true.
+Proof.
+  unfold rfc_limit_bad. intros H. eapply af_some_kid; [|exact H].
+  intros k _ B. simpl in *. rewrite af_kids, af_chardata. exact B.
+Qed.
+
+(** ** CardDAV REPORT: from the tree to the 400 *)
+
+Theorem card_report_bad_400 env r root :
+  r_xml r = XTree root -> rfc_card_report_bad root = true -> card_handle_report env r = bad_request.
+Proof.
+  intros X R. unfold card_handle_report, decode_xml_request. rewrite X.
+  destruct (negb (is_content_xml r)); [reflexivity|].
+  unfold um_card_report, chk. change (MAXD <=? 0) with false. cbv iota.
+  unfold rfc_card_report_bad in R. rewrite drop_qualified_afilter.
+  destruct (kid_is root NS_CARD "addressbook-query").
+  - destruct (um_card_query 0 card_query_zero (afilter _ root)) as [q|] eqn:E; [|reflexivity].
+    apply orb_true_iff in R. destruct R as [R|RL].
+    apply orb_true_iff in R. destruct R as [RA|RF].
+    + apply card_query_rejected. left.
+      apply rfc_addr_data_bad_inv in RA. destruct RA as (ad & RD & B).
+      eapply addr_data_of_prop_bad with (root := afilter _ root).
+      * rewrite um_card_query_eq in E.
+        destruct (um_struct_nonelem_none _ _ _ _ _ _ _ _ E) as (n & l & a & ks & Er).
+        rewrite Er in E. apply um_struct_some in E. destruct E as (a1 & a2 & H1 & H2 & ->). unfold no_text.
+        apply no_attr_fold in H1. subst a1. apply card_query_raws in H2. rewrite H2. simpl.
+        rewrite report_props_eq, Er. reflexivity.
+      * apply af_report_data. exact RD.
+      * apply af_ad; auto.
+    + assert (FB : afbad (aq_filter q)).
+      { eapply (card_query_filter_rej (afilter _ root)); [|exact E].
+        eapply af_some_kid; [|exact RF]. intros f _ F. apply af_card_filter; auto. apply keeps_drop. }
+      unfold card_handle_query. pose proof (addr_data_of_prop_nopanic (aq_sel q)) as NP.
+      destruct (addr_data_of_prop (aq_sel q)); try reflexivity; [|congruence].
+      unfold afbad in FB. rewrite FB. reflexivity.
+    + exfalso. rewrite (card_query_limit_fails (afilter _ root)) in E; [discriminate|].
+      eapply af_some_kid; [|exact RL]. intros k _ B. apply af_limit; auto.
+  - destruct (kid_is root NS_CARD "addressbook-multiget"); [|discriminate].
+    destruct (um_multiget NS_CARD "addressbook-multiget" (r_url_ok r) 0 multiget_zero (afilter _ root)) as [m|] eqn:E; [|reflexivity].
+    unfold card_handle_multiget.
+    apply rfc_addr_data_bad_inv in R. destruct R as (ad & RD & B).
+    rewrite (addr_data_of_prop_bad (mg_sel m) (afilter (fun a => str_empty (a_ns a)) root) (afilter (fun a => str_empty (a_ns a)) ad)); [reflexivity| | |].
+    + rewrite um_multiget_eq in E.
+      destruct (um_struct_nonelem_none _ _ _ _ _ _ _ _ E) as (n & l & a & ks & Er).
+      rewrite Er in E. apply um_struct_some in E. destruct E as (a1 & a2 & H1 & H2 & ->). unfold no_text.
+      apply no_attr_fold in H1. subst a1. apply multiget_raws in H2. rewrite H2. simpl.
+      rewrite report_props_eq, Er. reflexivity.
+    + apply af_report_data. exact RD.
+    + apply af_ad; auto.
+Qed.
+
+(* ------------------------------------------------------------------ *)
+(** * The REPORT classes, and all of [malformed]                       *)
+
+Theorem malformed_report_refused c :
+  backend_total c = true -> malformed_report c = true -> refused (serve c).
+Proof.
+  intros T M. unfold malformed_report in M.
+  apply andb_true_iff in M. destruct M as [M MX]. apply andb_true_iff in M. destruct M as [WK MR].
+  apply negb_true_iff in WK. unfold m_is in MR.
+  destruct c as [env r|env r|env r|n r]; simpl in *.
+  - destruct (r_xml r); discriminate.
+  - assert (HB : ce_has_backend env = true) by (unfold cal_total in T; split_total T; auto).
+    unfold serve_caldav. rewrite HB, WK, MR. simpl.
+    destruct (r_xml r) as [| |root] eqn:X; try discriminate.
+    rewrite orb_false_r in MX. simpl in MX.
+    rewrite (cal_report_bad_400 env r root X MX). apply finish_refused, hrefused_bad_request.
+  - assert (HB : ae_has_backend env = true) by (unfold card_total in T; split_total T; auto).
+    unfold serve_carddav. rewrite HB, WK, MR. simpl.
+    destruct (r_xml r) as [| |root] eqn:X; try discriminate.
+    simpl in MX.
+    rewrite (card_report_bad_400 env r root X MX). apply finish_refused, hrefused_bad_request.
+  - destruct (r_xml r); try discriminate.
+Qed.
+
+Theorem malformed_refused c :
+  backend_total c = true -> malformed c = true -> refused (serve c).
+Proof.
+  intros T M. unfold malformed in M. apply orb_true_iff in M. destruct M as [M|M].
+  - apply malformed_basic_refused; auto.
+  - apply malformed_report_refused; auto.
+Qed.
+
+(** agreement of an observation with the model entails the specification *)
+Theorem agree_implies_spec_ok c o : model_agrees c o = true -> spec_ok c o = true.
+Proof.
+  unfold model_agrees, spec_ok. intros A. apply outcome_eqb_eq in A. subst o.
+  destruct (backend_total c) eqn:T; [|reflexivity].
+  apply acceptable_spec. pose proof (serve_complete c T) as SC. unfold complete in SC. destruct SC as (s & cs & E & H1 & H2).
+  exists s, cs. split; [exact E|]. split; [exact H1|]. split; [exact H2|]. intros M.
+  destruct (malformed_refused c T M) as (s' & E' & H3 & H4). rewrite E in E'. inversion E'; subst. auto.
+Qed.
